@@ -388,6 +388,18 @@ def rule_eqn(ctx, rep):
             g.subroutine("f", "F0", ["F0", "F1", "F2"]); g.subroutine("g", "G0", ["G0"])
             g.call("F2", "g")
             subs = ["f", "g"]
+        elif kind in ("recursive callee without an accepting leaf", "mutually recursive callees, the second one has an accepting leaf"):
+            # f calls g, g calls f again (recursion): the search for a program-terminating exit must terminate and look through the cycle
+            g.block("F2", ["f1:", "callsub g"]); g.block("F3", ["retsub"]); g.edge("F0", "F2"); g.edge("F2", "F3")
+            g.block("G0", ["g:", "txn Fee", "bnz g1"]); g.block("G1", ["callsub f"]); g.block("G3", ["retsub"]); g.edge("G0", "G1"); g.edge("G1", "G3")
+            if kind.startswith("mutually"):
+                g.block("G2", ["g1:", "int 1", "return"])
+            else:
+                g.block("G2", ["g1:", "retsub"])
+            g.edge("G0", "G2")
+            g.subroutine("f", "F0", ["F0", "F1", "F2", "F3"]); g.subroutine("g", "G0", ["G0", "G1", "G2", "G3"])
+            g.call("F2", "g"); g.call("G1", "f")
+            subs = ["f", "g"]
         else:   # the accepting leaf is in a subroutine called by the callee
             g.block("F2", ["f1:", "callsub g"]); g.block("F3", ["retsub"]); g.edge("F0", "F2"); g.edge("F2", "F3")
             g.block("G0", ["g:", "txn Fee", "bnz g1"]); g.block("G1", ["retsub"]); g.block("G2", ["g1:", "int 1", "return"])
@@ -401,7 +413,8 @@ def rule_eqn(ctx, rep):
 
     for kind, want in (("accepting leaf", {2, 3, 4}), ("failing leaf", {2, 3}), ("accepting leaf in a nested callee", {2, 3, 4}),
                        ("leaf that falls off the end of the program", {2, 3, 4}), ("callsub without return point as exit", {2, 3, 4}),
-                       ("accepting leaf two calls below the callee", {2, 3, 4})):
+                       ("accepting leaf two calls below the callee", {2, 3, 4}), ("recursive callee without an accepting leaf", {2, 3}),
+                       ("mutually recursive callees, the second one has an accepting leaf", {2, 3, 4})):
         g, fn = mixed(kind)
         me, lo = setup(g, fn, {n: set() for n in g.blocks}, {})
         lo[g.blocks["R"]] = {1, 2, 3}
